@@ -541,6 +541,9 @@ func Replay(sc *Scenario, w *world.World, seed int, ops []world.Op, verbose bool
 			for _, f := range fails {
 				fmt.Printf("      FAIL oracle=%s cause=%s %s\n", f.Oracle, f.Cause, f.Msg)
 			}
+			if os.Getenv("VERIF_DUMP") != "" {
+				fmt.Print("    ", next.Snap().Summary())
+			}
 		}
 		all = append(all, fails...)
 		last = fails
